@@ -230,7 +230,22 @@ func paramAccesses(fn *ssa.Function, pi int, keep func(*ssa.Function) bool, dept
 							continue
 						}
 						summarised = true
+						ce := For(callee)
 						for _, s := range sub {
+							if s.Kind == "read" {
+								// only upward-exposed reads count: a read that a covering write of the
+								// callee may precede observes (possibly) the callee's own value
+								shadowed := false
+								for _, w := range sub {
+									if w.Kind != "read" && w.Instr != s.Instr && Covers(w.Path, s.Path) && ce.MayPrecede(w.Instr, s.Instr) {
+										shadowed = true
+										break
+									}
+								}
+								if shadowed {
+									continue
+								}
+							}
 							acc = append(acc, Access{Path: append(append([]string{}, path...), s.Path...), Instr: x, Kind: s.Kind, How: ShortFunc(callee) + ":" + s.How})
 						}
 					}
